@@ -1,1 +1,57 @@
-fn main() {}
+//! S->I executor for IanaParams.tla cases (X14).
+//!
+//! code  {k:"code", ty, c}:  the value with code c written by every writer of
+//!       the type (Display, to_mnemonic, ZonefileFmt token, serde_json) and
+//!       every written form read back by every reader (FromStr, from_bytes,
+//!       from_mnemonic, scan over an IterScanner, the zone-file reader,
+//!       Deserialize); ==/Ord/Hash against the codes; the predicates.
+//! text  {k:"text", ty, t}:  an arbitrary text through every reader; all
+//!       routes that read the same form must agree ("routes" appears in the
+//!       observation otherwise).
+//! const {k:"const", ty, name}: the code of a named constant.
+#[path = "../zf.rs"]
+mod zf;
+#[path = "../iana.rs"]
+mod iana;
+use domain::base::iana::*;
+use iana::*;
+use serde_json::{json, Value};
+use verif_harness::common::*;
+
+fn main() {
+    run_cases(|input: &Value| {
+        let ty = input["ty"].as_str().unwrap_or("");
+        match input["k"].as_str().unwrap_or("") {
+            "code" => {
+                let c = input["c"].as_u64().unwrap_or(0) as u32;
+                match ty {
+                    "Rcode" => rcode_obs(c),
+                    "OptRcode" => optrcode_obs(c),
+                    "RType" | "RClass" => new_obs(ty, c),
+                    _ => with_iana!(ty, code_obs, ty, c).unwrap_or(json!({"unknown_type": ty})),
+                }
+            }
+            "text" => {
+                let s = string_of(&input["t"]);
+                match ty {
+                    "Rcode" | "OptRcode" => rcode_text_obs(ty, &s),
+                    _ => {
+                        let mut o = with_iana!(ty, text_obs, ty, &s).unwrap_or(json!({"unknown_type": ty}));
+                        // the decimal style's Deserialize takes numbers only and is not part of the case
+                        if style_of(ty).0 == "decimal" {
+                            if let Some(m) = o.as_object_mut() {
+                                if m.get("de") == Some(&json!({"err": true})) { /* as specified */ }
+                            }
+                        }
+                        o
+                    }
+                }
+            }
+            "const" => match const_of(ty, input["name"].as_str().unwrap_or("")) {
+                Some(c) => json!({"ok": c}),
+                None => json!({"no_such_constant": true}),
+            },
+            _ => json!({"bad_case": true}),
+        }
+    });
+}
